@@ -318,14 +318,21 @@ func runUfs(c *Case, res *result) (err error) {
 				if k.count(f.who, "respond.posted") > 0 {
 					return true
 				}
-				if inUfsOpen() > before {
+				// (a blocked open left over from an earlier case may be released
+				// late and leave open(2) after `before` was taken: the reference
+				// is the lowest count seen since)
+				c := inUfsOpen()
+				if c < before {
+					before = c
+				}
+				if c > before {
 					f.parked = true
 					return true
 				}
 				return false
 			})
 			if !ok {
-				return &hangError{"Topen of a FIFO neither blocked nor was answered"}
+				return &hangError{fmt.Sprintf("Topen of a FIFO neither blocked nor was answered (goroutines in open(2) below Ufs: %d, lowest since the request was sent: %d)", inUfsOpen(), before)}
 			}
 		}
 		// FIFO path of each parked open: the walk that bound the fid
